@@ -266,6 +266,110 @@ example : ([1, 2] : List ℚ).length = (⟨[4, 2, 2, 5], 2, 2⟩ : Matrix ℚ).r
 
 end mv
 
+/-! ### the control flow never looks at values, nor at the distribution's own names -/
+
+section
+variable {α : Type} [Add α] [Sub α] [Mul α] [Div α] [Neg α] [Zero α] [One α]
+
+/-- **No value-triggered re-draw.**  Whether a draw is present, how many samples it has and how
+    many source numbers it takes are functions of `k` and of the *length* of the source alone: for
+    any two means, variances, sources of equal length — and any two interpretations `F`, `G` of the
+    real functions `sqrt ln cos sin …` the samples are made with — the two draws are both present
+    or both absent, have equally many samples and leave equally long rests.  In particular no
+    source value (a zero, a one, a repeated number) is skipped or drawn again. -/
+theorem draw_value_independent (F G : RealFns α) (μ₁ v₁ μ₂ v₂ : α) (s₁ s₂ : List α) (k : ℕ)
+    (h : s₁.length = s₂.length) :
+    ((letI := F; draw μ₁ v₁ s₁ k).1.isSome = (letI := G; draw μ₂ v₂ s₂ k).1.isSome) ∧
+    ((letI := F; draw μ₁ v₁ s₁ k).2.length = (letI := G; draw μ₂ v₂ s₂ k).2.length) ∧
+    (∀ a b, (letI := F; draw μ₁ v₁ s₁ k).1 = some a →
+      (letI := G; draw μ₂ v₂ s₂ k).1 = some b → a.length = b.length) := by
+  obtain ⟨hn1, hl1, hr1⟩ := (letI := F; draw_count μ₁ v₁ s₁ k)
+  obtain ⟨hn2, hl2, hr2⟩ := (letI := G; draw_count μ₂ v₂ s₂ k)
+  refine ⟨?_, ?_, ?_⟩
+  · cases h1 : (letI := F; draw μ₁ v₁ s₁ k).1 with
+    | none =>
+      have : s₂.length < 2 * ((k + 1) / 2) := by rw [← h]; exact hn1.mp h1
+      rw [hn2.mpr this]
+    | some a =>
+      cases h2 : (letI := G; draw μ₂ v₂ s₂ k).1 with
+      | some b => rfl
+      | none =>
+        have : s₁.length < 2 * ((k + 1) / 2) := by rw [h]; exact hn2.mp h2
+        rw [hn1.mpr this] at h1; cases h1
+  · rw [hr1, hr2, List.length_drop, List.length_drop, h]
+  · intro a b ha hb
+    rw [hl1 a ha, hl2 b hb]
+
+end
+
+section
+variable {K : Type} [Field K] [RealFns K] [NumOrd K]
+
+theorem mvSpec_isSome_iff (mean : List K) (cov : Matrix K) (s : List K) (k : ℕ) (same : Bool) :
+    (mvSpec mean cov s k same).isSome ↔
+      (same = false ∧ (cholesky cov).isSome ∧ k * needed mean.length ≤ s.length) := by
+  unfold mvSpec
+  cases same with
+  | true => simp
+  | false =>
+    cases hc : cholesky cov with
+    | none => simp
+    | some L =>
+      by_cases hl : s.length < k * needed mean.length <;> simp [hl] <;> omega
+
+/-- **The multivariate draw does not look at the source values to decide anything**: for two
+    sources of equal length (same distribution, same request) the two draws take equally many
+    numbers, are both present / both absent / both rejected, and present results have the same
+    shape. -/
+theorem mv_value_independent (mean : List K) (cov : Matrix K) (s₁ s₂ : List K) (k : ℕ) (same : Bool)
+    (hm : mean.length = cov.rows) (h : s₁.length = s₂.length) :
+    (drawTensorSamples mean cov s₁ k same).2.length = (drawTensorSamples mean cov s₂ k same).2.length ∧
+    ((drawTensorSamples mean cov s₁ k same).1 = .ok none ↔
+      (drawTensorSamples mean cov s₂ k same).1 = .ok none) ∧
+    ((drawTensorSamples mean cov s₁ k same).1 = .panic .explicit ↔
+      (drawTensorSamples mean cov s₂ k same).1 = .panic .explicit) ∧
+    (∀ m₁ m₂, (drawTensorSamples mean cov s₁ k same).1 = .ok (some m₁) →
+      (drawTensorSamples mean cov s₂ k same).1 = .ok (some m₂) →
+      m₁.rows = m₂.rows ∧ m₁.columns = m₂.columns) := by
+  rw [mv_draw_eq _ _ _ _ _ hm, mv_draw_eq _ _ _ _ _ hm]
+  simp only []
+  have hsome := mvSpec_isSome_iff mean cov s₁ k same
+  have hsome' := mvSpec_isSome_iff mean cov s₂ k same
+  rw [h] at hsome
+  have hiff : (mvSpec mean cov s₁ k same).isSome = (mvSpec mean cov s₂ k same).isSome := by
+    rw [Bool.eq_iff_iff, hsome, hsome']
+  refine ⟨by rw [List.length_drop, List.length_drop, h], ?_, ?_, ?_⟩
+  · split
+    · simp
+    · cases h1 : mvSpec mean cov s₁ k same <;> cases h2 : mvSpec mean cov s₂ k same <;>
+        simp [h1, h2] at hiff ⊢
+  · split <;> simp
+  · split
+    · intro m₁ m₂ h1; cases h1
+    · intro m₁ m₂ h1 h2
+      simp only [Outcome.ok.injEq] at h1 h2
+      obtain ⟨a1, a2, _⟩ := mv_shape _ _ _ _ _ _ h1
+      obtain ⟨b1, b2, _⟩ := mv_shape _ _ _ _ _ _ h2
+      exact ⟨by rw [a1, b1], by rw [a2, b2]⟩
+
+end
+
+/-- **The draw's name checks depend only on the two requested names**: for a valid covariance
+    tensor (its two names differ), whatever the mean's own name and the covariance's names are —
+    equal to `samples`, to `features`, to one another or to internal names — the checks pass
+    exactly when `samples ≠ features`, and the drawn tensor is named `[samples, features]`; equal
+    requested names give absence (never a panic). -/
+theorem mvNameChecks_eq {ν : Type} [DecidableEq ν] (meanName cov0 cov1 samples features : ν)
+    (hcov : cov0 ≠ cov1) :
+    mvNameChecks meanName cov0 cov1 samples features
+      = if samples = features then .ok none else .ok (some [samples, features]) := by
+  unfold mvNameChecks namesUnique
+  by_cases h : samples = features
+  · simp [h]
+  · simp [h, hcov]
+
+example : ("u" : String) ≠ "v" := by decide
+
 /-! ### fitting -/
 
 /-- **`Gaussian::approximating` fits the sample mean and the population variance**: for non-empty
